@@ -3,6 +3,7 @@
 package harness
 
 import (
+	"os"
 	"bytes"
 	"fmt"
 	"io"
@@ -312,7 +313,7 @@ func runC10(r *simrt.Run, tier Tier) Outcome {
 }
 
 func clipBytes(b []byte) []byte {
-	if len(b) > 700 {
+	if len(b) > 700 && os.Getenv("MGSIM_FULLINPUT") == "" {
 		return append(append([]byte{}, b[:700]...), []byte("...")...)
 	}
 	return b
